@@ -188,15 +188,17 @@ def readFraction (n : Nat) (s : Text) : R (Bool × Text) :=
   | c :: t => if c = 46 then (readOverDigits n t).map (fun r => (true, r)) else .ok (false, s)
   | [] => .ok (false, s)
 
+/-- `if char is not None and char in "+-": self._position += 1` -/
+def skipSign : Text → Text
+  | x :: u => if x = 43 ∨ x = 45 then u else x :: u
+  | [] => []
+
 /-- optional exponent part (C01-L3: digits, not an integer part) -/
 def readExponent (n : Nat) (s : Text) : R (Bool × Text) :=
   match s with
   | c :: t =>
     if c = 101 ∨ c = 69 then
-      let t' := match t with
-        | x :: u => if x = 43 ∨ x = 45 then u else t
-        | [] => t
-      (readOverDigits n t').map (fun r => (true, r))
+      (readOverDigits n (skipSign t)).map (fun r => (true, r))
     else .ok (false, s)
   | [] => .ok (false, s)
 
@@ -206,11 +208,13 @@ def numberLookahead (n : Nat) (s : Text) : R Unit :=
   | c :: _ => if isNameStart c then .error ⟨.unexpectedCharacter, posAt n s⟩ else .ok ()
   | [] => .ok ()
 
+/-- `if char == "-": self._position += 1` -/
+def skipMinus : Text → Text
+  | c :: t => if c = 45 then t else c :: t
+  | [] => []
+
 def readNumber (n : Nat) (s : Text) : R (Tok × Text) := do
-  let s1 := match s with
-    | c :: t => if c = 45 then t else s
-    | [] => s
-  let s2 ← readOverInteger n s1
+  let s2 ← readOverInteger n (skipMinus s)
   let (f1, s3) ← readFraction n s2
   let (f2, s4) ← readExponent n s3
   numberLookahead n s4
